@@ -54,7 +54,7 @@ chk("C15","exploration",
 ]
 m = {"version":1,
  "setup_cmd":"./check.sh build",
- "hooks":{"guard":"verif","enable":"go build -tags verif (check.sh builds /verif/sim with replace github.com/deadsy/sdfx => /repo)",
+ "hooks":{"guard":"verif","enable":"go build -tags verif (check.sh builds /verif/sim with replace github.com/deadsy/sdfx => /repo; in addition sim/cmd/instrument inserts simYield calls before every synchronisation operation into temporary copies of the sdfx sources that are passed to the compiler with -overlay - /repo itself is not modified)",
    "baseline_off_cmd":"cd /repo && go build ./... && go test -vet=off -count=1 ./render/... ./sdf/... ./vec/v3/...",
    "source_commits":hook,"add_only":True},
  "engines":[{"name":"simcheck","path":"sim/","serves_properties":["C09","C10","C11","C12","C13","C14","C15"],
